@@ -8,6 +8,7 @@ cyvcf2 is trusted through the contract "`variant.genotypes[i] = [allele0, allele
 `vcf.samples` = the header's sample names, CHROM/POS/ID as written".  Core Lean only.
 -/
 import PybropsModel.Np
+import PybropsModel.Model.Store
 
 namespace StoreVcf
 
@@ -95,6 +96,36 @@ def fromVcf (samples : List String) (recs : List Rec) (autoGroup : Bool) : Out :
       runs := some ((Np.uniqueRuns chr).map (fun r => (r.1, r.2.1, r.2.2))) }
   else
     { taxa := samples, chrgrp := chr0, phypos := pos0, name := nam0, matP := mP0, matU := mU0, runs := none }
+
+/-! ### the text level: CHROM as written, ID possibly missing -/
+
+/-- one data line as cyvcf2 hands it over: `variant.CHROM` is a string, `variant.ID` is `None` for `.` -/
+structure RawRec where
+  chrom : String
+  pos : Int
+  id : Option String
+  calls : List (Int × Int)
+  deriving DecidableEq, Repr, Inhabited
+
+/-- `int(variant.CHROM)` (ValueError for a name that is not an integer literal — the matrix stores
+    chromosomes as an integer array, so such a file is refused) and `str(variant.ID)` (a missing
+    identifier becomes the string "None") -/
+def parseRec (r : RawRec) : Except Store.Err Rec :=
+  match r.chrom.toInt? with
+  | some c => pure ⟨c, r.pos, r.id.getD "None", r.calls⟩
+  | none => throw .value
+
+def parseRecs : List RawRec → Except Store.Err (List Rec)
+  | [] => pure []
+  | r :: rest => do
+    let a ← parseRec r
+    let tl ← parseRecs rest
+    pure (a :: tl)
+
+/-- `from_vcf(filename, auto_group_vrnt)` on the records as read -/
+def fromVcfRaw (samples : List String) (raws : List RawRec) (autoGroup : Bool) : Except Store.Err Out := do
+  let recs ← parseRecs raws
+  pure (fromVcf samples recs autoGroup)
 
 /-- entry (a, b, c) of a nested list (0 outside) -/
 def entry3' (A : List (List (List Int))) (a b c : Nat) : Int := ((A.getD a []).getD b []).getD c 0
